@@ -38,6 +38,14 @@ def run_standard(mod, ctx):
         t_sc = vcore.tie_b_sc(ctx)
         ctx.log("Tie B: scalar limb code re-transcribed from the source, %s" % ("proofs hold" if not t_sc else "PROOFS BROKEN"))
         tieb = tieb + t_sc
+    if getattr(mod, "FINGERPRINTS", None):
+        import fingerprint
+        ch = fingerprint.changed(vcore.REPO, mod.FINGERPRINTS)
+        ctx.stats["limb_code_fingerprints_checked"] = len([k for k in json.load(open(fingerprint.PINS))])
+        for (k, old, new) in ch:
+            tieb = tieb + [("transcription of " + k, "the body of this function differs from the text its Lean model was transcribed from (pinned %s, now %s): "
+                            "the limb-arithmetic theorems no longer cover the code that exists; re-transcribe and re-prove, then update tools/fingerprints.json" % (old, new))]
+        ctx.log("Tie B: limb-code source fingerprints, %d changed" % len(ch))
     rng = random.Random(ctx.seed)
     cfgs = mod.configs(ctx.tier)
     if hasattr(mod, "gen"):
@@ -87,7 +95,7 @@ def run_standard(mod, ctx):
         mod.extra(ctx, rng)
     for (name, log) in tieb:
         # the table in the source is no longer the table the theorems are about; the correspondence above was the search for a concrete failing input
-        vcore.report(ctx, "tieB", {"theorem": name if name.startswith("Sodium.") or name == "translator" else "Sodium.Generated." + name, "what": "a model part regenerated from /repo's current source no longer satisfies its kernel-checked obligation",
+        vcore.report(ctx, "tieB", {"theorem": name if name.startswith(("Sodium.", "transcription")) or name == "translator" else "Sodium.Generated." + name, "what": "a model part regenerated from /repo's current source no longer satisfies its kernel-checked obligation",
                                          "log": log[-1200:], "concrete_inputs": "see the other replay files of this run" if ctx.violations else None}, no_input=not ctx.violations)
     vcore.write_evidence(ctx, mod.LEVEL, mod.RULE, getattr(mod, "evidence_extra", lambda c: None)(ctx),
                          getattr(mod, "ASSUMPTIONS", []))
